@@ -25,6 +25,8 @@ from vlib.core import import_odl
 odl = import_odl()
 from odl.operator.operator import Operator  # noqa: E402
 from odl.space.pspace import ProductSpace  # noqa: E402
+from odl.operator.pspace_ops import (  # noqa: E402
+    ProductSpaceOperator, BroadcastOperator, ReductionOperator)
 from odl.set.sets import Field  # noqa: E402
 from odl.discr import DiscretizedSpace  # noqa: E402
 
@@ -76,16 +78,26 @@ TOLERANCES = {
 ASSUMPTIONS = [
     'spaces have real dimension <= ~40 (the identity is decided exactly '
     'there; size-dependent code paths of the adjoints are not reached)',
-    'operators whose .adjoint raises a documented refusal type '
-    '(NotImplementedError incl. OpNotImplementedError, TypeError, ValueError) '
-    'or returns None are counted as adjoint_unavailable, not as violations '
-    '(the property is conditional on an adjoint being returned). Two '
-    'exceptions: any other exception type is a crash (clause adjoint-raises), '
-    'and an arithmetic combination / block operator whose operands all offer '
-    'adjoints must offer one itself, except for complex scalars on operators '
-    'between a real and a complex space (conjugate outside the field)',
+    'every catalogue configuration carries a documentation-derived '
+    'expectation (zoo_linops.adjoint_expectation): OFFERED (class documents '
+    'an adjoint; arithmetic combinations / block operators whose operands '
+    'all offer adjoints) -> any exception or None from .adjoint, and any '
+    'exception from applying it, is a violation; REFUSED (classes without '
+    'an adjoint of their own: LinCombOperator, PowerOperator(1), linear '
+    'ufunc_ops -> OpNotImplementedError; biorthogonal wavelets -> '
+    'OpNotImplementedError; complex scalar multiple of an operator between '
+    'a real and a complex space -> TypeError) -> only the documented type '
+    'passes (clause refusal-type), a returned adjoint is checked like any '
+    'other; SILENT (counted as adjoint_unavailable(docs-silent), refusal '
+    'types ValueError/TypeError/NotImplementedError only): '
+    'ConstantOperator(0).adjoint (returns None), MatrixOperator whose range '
+    'dtype is not castable to the domain dtype (complex matrix on a real '
+    'domain, float32 -> float64), composites with an operand that offers no '
+    'adjoint, and the wrapper entry "adjoint" (already examined as '
+    'operand.adjoint.adjoint)',
     'once A returned an adjoint, A.adjoint.adjoint has to act like A; it may '
-    'only decline with a documented refusal type (counted as observation)',
+    'decline only with TypeError when the tree contains a complex-typed '
+    'scalar multiple (conjugate outside the field of a real space)',
     'between two complex spaces the full complex identity is asserted only '
     'for complex-linear A; R-linear A (e.g. embed o realpart) is compared in '
     'real part, like operators between a real and a complex space',
@@ -424,6 +436,20 @@ def check_operator(node, eng, bound_children):
 
     eng.strata += ['cls:' + cls, 'g:' + g, 'dom:' + wkind(X),
                    'ran:' + wkind(Y), 'field:' + fkind(X) + fkind(Y)]
+    if isinstance(A, (ProductSpaceOperator, BroadcastOperator,
+                      ReductionOperator)):
+        if isinstance(A, ProductSpaceOperator):
+            r, c = A.shape
+            nblocks = len(A.ops.data)
+        elif isinstance(A, BroadcastOperator):
+            r, c, nblocks = len(A), 1, len(A)
+        else:
+            r, c, nblocks = 1, len(A), len(A)
+        eng.strata.append('blockshape:{}x{}'.format(r, c))
+        if r != c:
+            eng.strata.append('blocks:non-square')
+        if nblocks < r * c:
+            eng.strata.append('blocks:zero-block')
     if bd:
         eng.strata.append('bdry')
     if eps > 1e-10:
@@ -464,35 +490,49 @@ def check_operator(node, eng, bound_children):
                             _fro(off), _fro(Ax - M @ x), lin_tol))
 
     # ---- the adjoint ------------------------------------------------------
+    expect, exc_types, why = zoo.adjoint_expectation(node)
+    eng.strata.append('expect:' + expect)
+    failure = None
     try:
         adj = A.adjoint
-    except Exception as e:  # noqa: the property is conditional
-        must = _adjoint_expected(node, A)
-        if must or not isinstance(e, zoo.REJECT_EXC):
-            # (a) an arithmetic combination / block operator whose operands
-            # all offer adjoints has to offer one itself (the rules only
-            # document OpNotImplementedError for non-linear operands);
-            # (b) an exception outside the documented refusal types is a
-            # crash, not a refusal
-            where, site = _where(e)
-            if where != 'odl':
-                raise
+        if adj is None:
+            failure = 'None'
+    except Exception as e:  # noqa: classified below
+        where, site = _where(e)
+        if where != 'odl':
+            raise
+        adj, failure = None, type(e).__name__
+        if expect == zoo.OFFERED or (expect == zoo.SILENT and
+                                     not isinstance(e, zoo.REJECT_EXC)):
+            # documented adjoint (or an undocumented exception type where the
+            # documentation is silent): a raise is a violation
             raise Violation(
-                'C05|adjoint-raises|{}|{}'.format(tail, type(e).__name__),
-                '.adjoint raises {!r} [{}] ({}); A = {!r}'.format(
-                    e, site, must or 'undocumented exception type', A)[:800])
+                'C05|adjoint-raises|{}|{}'.format(tail, failure),
+                '.adjoint raises {!r} [{}] although {}; A = {!r}'.format(
+                    e, site, why, A)[:800])
+        if expect == zoo.REFUSED and not isinstance(e, exc_types):
+            raise Violation(
+                'C05|refusal-type|{}|{}'.format(tail, failure),
+                '.adjoint raises {!r} [{}]; documented refusal: {} ({})'
+                ''.format(e, site, '/'.join(t.__name__ for t in exc_types),
+                          why)[:800])
+    if failure == 'None' and expect != zoo.SILENT:
+        raise Violation(
+            'C05|{}|{}|None'.format('adjoint-raises' if expect == zoo.OFFERED
+                                    else 'refusal-type', tail),
+            '.adjoint returned None ({}); A = {!r}'.format(why, A)[:800])
+    if failure is not None:
         eng.notes['adjoint_unavailable'] += 1
         eng.strata += ['status:adjoint_unavailable',
-                       'adjoint_unavailable:{}:{}'.format(cls,
-                                                          type(e).__name__)]
+                       'adjoint_unavailable({}):{}:{}'.format(
+                           'documented' if expect == zoo.REFUSED
+                           else 'docs-silent', cls, failure)]
         eng.unavailable.append(cls)
         return bound
-    if adj is None:
-        eng.notes['adjoint_unavailable'] += 1
-        eng.strata += ['status:adjoint_unavailable',
-                       'adjoint_unavailable:{}:None'.format(cls)]
-        eng.unavailable.append(cls)
-        return bound
+    if expect == zoo.REFUSED:
+        # an adjoint is returned where the docs announce a refusal: it is
+        # checked like any other (a wrongly offered adjoint is caught below)
+        eng.strata.append('adjoint-returned-despite-documented-refusal:' + cls)
     if not isinstance(adj, Operator):
         raise Violation('C05|adjoint-type|' + tail,
                         '.adjoint returned {!r}'.format(type(adj)))
@@ -506,6 +546,18 @@ def check_operator(node, eng, bound_children):
     if not adj.is_linear:
         raise Violation('C05|adjoint-not-linear|' + tail,
                         'A.adjoint.is_linear is False')
+    if isinstance(A, ProductSpaceOperator):
+        # documented: "the adjoint is given by taking the transpose of the
+        # matrix [of operators]"
+        want = (A.shape[1], A.shape[0])
+        got = tuple(getattr(adj, 'shape', ()))
+        if not isinstance(adj, ProductSpaceOperator) or got != want or \
+                tuple(A.shape) != (len(Y), len(X)):
+            raise Violation('C05|adjoint-shape|' + tail,
+                            'block operator of shape {} has an adjoint of '
+                            'shape {} (expected the transpose {}; domain / '
+                            'range have {} / {} parts)'.format(
+                                tuple(A.shape), got, want, len(X), len(Y)))
     try:
         N, offa = eng.matrix(adj, Y, X, 'A.adjoint', tail)
     except Violation:
@@ -579,26 +631,32 @@ def check_operator(node, eng, bound_children):
             eng.strata.append('R-linear-only')
 
     # ---- adjoint of the adjoint -------------------------------------------
+    # A returned an adjoint, so "A.adjoint.adjoint acts like A" applies.  The
+    # only documented way out: the conjugate of a complex scalar multiple is
+    # refused (TypeError) by an operand living on a real space; for the
+    # wrapper entry 'adjoint' the documentation is silent.
+    tolerated = (TypeError,) if zoo.has_complex_scalar(node) else ()
+    if node.entry == 'adjoint' or expect != zoo.OFFERED:
+        tolerated = zoo.REJECT_EXC
+    aa_fail = None
     try:
         aa = adj.adjoint
-    except zoo.REJECT_EXC as e:
-        # the adjoint declines to offer an adjoint of its own (documented
-        # refusal types): observation
-        eng.strata.append('adjadj_unavailable:{}:{}'.format(
-            cls, type(e).__name__))
-        return bound
+        if aa is None:
+            aa_fail = 'None'
     except Exception as e:  # noqa
-        # A returned an adjoint, so "A.adjoint.adjoint acts like A" applies;
-        # an undocumented exception type is a crash, not a refusal
         where, site = _where(e)
         if where != 'odl':
             raise
-        raise Violation('C05|adjadj-crash|{}|{}'.format(
-            tail, type(e).__name__),
-            'A.adjoint.adjoint raises {!r} [{}]; A = {!r}'.format(
-                e, site, A)[:700])
-    if aa is None:
-        eng.strata.append('adjadj_unavailable:{}:None'.format(cls))
+        aa, aa_fail = None, type(e).__name__
+        if not isinstance(e, tolerated):
+            raise Violation('C05|adjadj-raises|{}|{}'.format(tail, aa_fail),
+                            'A.adjoint.adjoint raises {!r} [{}]; A = {!r}'
+                            ''.format(e, site, A)[:700])
+    if aa_fail == 'None' and not tolerated:
+        raise Violation('C05|adjadj-raises|{}|None'.format(tail),
+                        'A.adjoint.adjoint is None; A = {!r}'.format(A)[:700])
+    if aa_fail is not None:
+        eng.strata.append('adjadj_unavailable:{}:{}'.format(cls, aa_fail))
         return bound
     if not isinstance(aa, Operator) or aa.domain != X or aa.range != Y:
         raise Violation('C05|adjadj-spaces|' + tail,
@@ -627,28 +685,6 @@ def check_operator(node, eng, bound_children):
     return bound
 
 
-COMBINATORS = ('sum', 'sub', 'comp', 'pow', 'neg', 'lvec', 'rvec', 'flvec',
-               'broadcast', 'reduction', 'diagonal', 'pspaceop')
-SCALAR_COMBINATORS = ('lscal', 'rscal', 'rscal_mul', 'div')
-
-
-def _adjoint_expected(node, A):
-    """Reason why ``A.adjoint`` has to exist, or '' if a refusal is
-    legitimate (leaf operators; complex scalars on operators between a real
-    and a complex space, where the conjugated scalar is outside the field)."""
-    if not node.children or any(not k.available for k in node.children):
-        return ''
-    if node.entry in COMBINATORS:
-        return 'all operands of this {} offer adjoints'.format(node.entry)
-    if node.entry in SCALAR_COMBINATORS:
-        # membership in RealNumbers is by type: 3+0j is not a real number
-        if not isinstance(node.desc['s'], complex) or \
-                fkind(A.domain) == fkind(A.range):
-            return ('all operands of this {} offer adjoints and the scalar '
-                    'lies in both fields'.format(node.entry))
-    return ''
-
-
 def _option_tag(node):
     """Options that select a different adjoint rule go into the signature."""
     d = node.desc
@@ -664,6 +700,26 @@ def _option_tag(node):
     if e in ('dft', 'dft_inv', 'ft', 'ft_inv'):
         return 'opt={}{}'.format('hc' if d['halfcomplex'] else 'c2c',
                                  d['sign'])
+    if e in ('pwinner', 'pwinner_adj', 'pwsum', 'pwnorm_deriv'):
+        # relation between the operator's weights and those of the vector
+        # field space (the adjoint applies their ratio)
+        vf = d['vf']
+        n = int(vf[2])
+
+        def arr(w):
+            if w is None:
+                return np.ones(n)
+            if w['type'] == 'const':
+                return np.full(n, float(w['value']))
+            return np.asarray(w['data'], dtype=float)
+        if d.get('w') is None:
+            return 'opt=w-default'
+        sw, ow = arr(vf[3] if len(vf) > 3 else None), arr(d['w'])
+        if np.array_equal(sw, ow):
+            return 'opt=w-eq'
+        if np.any(np.isclose(sw, ow) & (sw != ow)):
+            return 'opt=w-near'
+        return 'opt=w-ne'
     if e == 'cembed':
         s = complex(d['s'])
         return 'opt=' + ('re' if s.imag == 0 else 'im' if s.real == 0
@@ -792,6 +848,9 @@ def _run_case(desc):
 
 REQUIRED_STRATA = [
     'family:tree', 'family:blocks', 'family:fourier', 'family:wavelet',
+    'blockshape:1x2', 'blockshape:2x1', 'blockshape:2x3', 'blockshape:3x2',
+    'blocks:non-square', 'blocks:zero-block', 'expect:offered',
+    'expect:refused', 'expect:silent',
     'g:id', 'g:scal-eq', 'g:scal-ne', 'g:diag', 'bdry', 'float32',
     'field:cc', 'field:rc', 'field:cr', 'complex-linear', 'R-linear-only',
     'adjadj-checked', 'status:adjoint_unavailable',
